@@ -107,6 +107,14 @@ func jobsWorker(req json.RawMessage) interface{} {
 			return c11Obs{Err: err.Error()}
 		}
 	}
+	// jobs on graphs whose names differ from "g" only in case or punctuation: they must never be found by searches on g either
+	for _, gn := range []string{"G", "g_", "g-"} {
+		if _, err := srv.AddGraph(ctx, &gripql.GraphID{Graph: gn}); err == nil {
+			if j, err := srv.Submit(ctx, &gripql.GraphQuery{Graph: gn, Query: gripql.NewQuery().V().Out().Statements}); err == nil {
+				waitJob(srv, j)
+			}
+		}
+	}
 	// a job on another graph with a two-step query: must never be found by searches on g
 	if j, err := srv.Submit(ctx, &gripql.GraphQuery{Graph: "other", Query: gripql.NewQuery().V().Out().Statements}); err == nil {
 		waitJob(srv, j)
@@ -383,7 +391,8 @@ func runC11(ctx *Ctx) error {
 			p := []tStmt{{Op: "V"}, {Op: "hasLabel", Strs: []string{"P"}}}
 			inputs = append(inputs, c11Input{Graph: g, Ops: []c11Op{{Op: "submit", Prog: p}, {Op: "restart"}, {Op: "view", Job: 0},
 				{Op: "resume", Job: 0, Prog: []tStmt{{Op: "has", Has: &hExpr{Kind: "cond", Key: "w", Op: "gte", Arg: 2.0}}}}, {Op: "search", Prog: append(append([]tStmt{}, p...), tStmt{Op: "count"})},
-				{Op: "resume", Job: 0, Prog: []tStmt{{Op: "count"}}}, {Op: "delete", Job: 0}, {Op: "list"}, {Op: "restart"}, {Op: "list"}, {Op: "view", Job: 0}}})
+				{Op: "resume", Job: 0, Prog: []tStmt{{Op: "count"}}}, {Op: "search", Prog: []tStmt{{Op: "V"}, {Op: "out"}, {Op: "count"}}}, {Op: "delete", Job: 0}, {Op: "list"}, {Op: "restart"}, {Op: "list"},
+				{Op: "search", Prog: []tStmt{{Op: "V"}, {Op: "out"}}}, {Op: "view", Job: 0}}})
 		}
 	}
 	if ctx.Replay == nil {
